@@ -604,6 +604,69 @@ func runGrpcJSONDiscard(res *vkit.Result, instances, entries int) {
 	res.Eval(vkit.JSON(c), discarded > 0)
 }
 
+// runScenarioHCLReload: an HCL scenario file is shot, then rewritten under the same name with other
+// calls, payloads and metadata (a user editing ammo.hcl between two runs in one process, two pools
+// with generated files), and shot again by a new provider: the server must receive what the
+// file says now.
+func runScenarioHCLReload(res *vkit.Result) {
+	c := Case{Kind: "scenario-hcl-reload", Instances: 1, TimeoutMs: 3000, Shots: 2}
+	hcl := func(call, field, name, run string) string {
+		return fmt.Sprintf(`call "c" {
+  tag      = "t"
+  call     = "target.TargetService.%s"
+  payload  = "{\"%s\": \"%s\"}"
+  metadata = {
+    "x-run" = "%s"
+  }
+}
+scenario "s" {
+  weight           = 1
+  min_waiting_time = 0
+  requests         = ["c"]
+}
+`, call, field, name, run)
+	}
+	path := "/c20/reload/ammo.hcl"
+	defer vkit.RemoveMem(path)
+	versions := []struct{ call, field, name, run string }{{"Hello", "name", "alice", "first"}, {"Auth", "login", "bob", "second"}, {"Hello", "name", "carol", "third"}}
+	for i, v := range versions {
+		_ = vkit.WriteMemAt(path, []byte(hcl(v.call, v.field, v.name, v.run)))
+		tgt.ResetCalls()
+		ec, err := vkit.DecodePools(map[string]any{"pools": []any{map[string]any{
+			"id": "p", "ammo": map[string]any{"type": "grpc/scenario", "file": path, "limit": c.Shots}, "result": map[string]any{"type": "discard"},
+			"gun": gunConf(c, "grpc/scenario"), "rps": map[string]any{"type": "once", "times": c.Shots},
+			"startup": map[string]any{"type": "once", "times": 1},
+		}}})
+		if err != nil {
+			res.Violate("C20/scenario-hcl-reload/rejected", fmt.Sprintf("version %d of the file rejected: %v", i+1, err), c)
+			return
+		}
+		ec.Pools[0].Aggregator = &vkit.MockAggregator{}
+		rr := vkit.RunEngine(ec, nil, 60*time.Second)
+		if rr.Hang || rr.Err != nil {
+			res.Violate("C20/scenario-hcl-reload/run-error", fmt.Sprintf("version %d: run ended with %v (hang %v)", i+1, rr.Err, rr.Hang), c)
+			return
+		}
+		calls := tgt.Calls()
+		ok := len(calls) == c.Shots
+		got := []string{}
+		for _, call := range calls {
+			run := call.MD.Get("x-run")
+			got = append(got, fmt.Sprintf("%s %v x-run=%v", call.Method, call.Req, run))
+			if !strings.HasSuffix(call.Method, "/"+v.call) || len(run) != 1 || run[0] != v.run || !strings.Contains(fmt.Sprint(call.Req), v.name) {
+				ok = false
+			}
+		}
+		if !ok {
+			res.Violate("C20/scenario-hcl-reload/stale-file", fmt.Sprintf("version %d of %s says %s {%s: %s} with x-run=%s, %d shots; the server received %v", i+1, path, v.call, v.field, v.name, v.run, c.Shots, got), c)
+			return
+		}
+		res.Count("calls_matched", int64(len(calls)))
+	}
+	res.Count("scenario_pools", 1)
+	res.Eval(vkit.JSON(c), true)
+}
+
 func main() {
 	vkit.Fs()
 	res := vkit.NewResult("grpc/json pools: 3–12 entries over Hello/Auth/List/Order of the example service with generated field combinations (unicode/quotes in strings, int64 as numbers within ±2^53 and as strings beyond), metadata maps, unknown methods / ill-typed payloads / unknown fields interleaved with good entries, shared-client on/off, 1–8 instances, configured timeout; grpc/scenario pools: two chained calls with payload and metadata templated from a csv row ([next]) and a value captured from the first response; distinct = distinct case descriptions; non-trivial = ≥ 2 entries or shots")
@@ -644,6 +707,7 @@ func main() {
 		}
 	}
 	runSlowScenario(res)
+	runScenarioHCLReload(res)
 	runGrpcJSONDiscard(res, 1, 700)
 	runTemplateErrorScenario(res, 1)
 	runTemplateErrorScenario(res, 3)
